@@ -72,6 +72,7 @@ func (t *Tokenizer) Parse(buf []byte, handler oj.TokenHandler) (err error) {
 	t.line = 1
 	t.mode = valueMap
 	t.mi = 0
+	t.exkey = false
 	defer func() {
 		if r := recover(); r != nil {
 			err = ojg.NewError(r)
@@ -103,6 +104,7 @@ func (t *Tokenizer) Load(r io.Reader, handler oj.TokenHandler) (err error) {
 	t.noff = -1
 	t.line = 1
 	t.mi = 0
+	t.exkey = false
 	buf := make([]byte, readBufSize)
 	eof := false
 	defer func() {
